@@ -21,6 +21,10 @@ func init() {
 }
 
 func runC20(c *Ctx) {
+	defer c.shared("R9", "C04/R3", "everything up to the decoder's nesting limit works: the renderer and the JSON converter give the cycle verdict only when the path scan finds the value among its ancestors, never because of its depth", keyHas("cycle-verdict"), func(s *Ctx) {
+		cycleGuard(s, "R3", "(*Value).toGoValueInterval")
+		cycleGuard(s, "R3", "(*Value).prettyStringInteral")
+	})
 	defer func() {
 		if eu := c.P.LangFunc("(*Evaluator).evalUnaryExpr"); eu != nil {
 			c.shared("R8", "C09/R5", "the fill-limit error reaches the user from every assignment form: ++ and -- go through evalAssignment and return its error", nil, func(s *Ctx) { incdecTable(s, "R5", eu) })
